@@ -667,12 +667,27 @@ func (f *fileStore) unlockExclusive() {
 }
 
 func (f *fileStore) close() error {
-	defer f.file.Close()
+	f.stopFlusher()
+	f.lockExclusive()
+	defer f.unlockExclusive()
+	return f.closeLocked()
+}
+
+// stopFlusher ends the periodic page flush. It is called without the lock:
+// the flusher may be waiting for it.
+func (f *fileStore) stopFlusher() {
 	if f.ticker != nil {
 		f.ticker.Stop()
 		f.tickerDone <- true
+		f.ticker = nil
 	}
-	return f.flushPages()
+}
+
+// closeLocked flushes the cache and closes the data file. The caller holds
+// the exclusive lock.
+func (f *fileStore) closeLocked() error {
+	defer f.file.Close()
+	return f.flushPagesLocked()
 }
 
 func (f *fileStore) getRoot() (*btreeNode, error) {
@@ -806,6 +821,10 @@ func (f *fileStore) open() error {
 func (f *fileStore) flushPages() error {
 	f.lockExclusive()
 	defer f.unlockExclusive()
+	return f.flushPagesLocked()
+}
+
+func (f *fileStore) flushPagesLocked() error {
 	for _, v := range f.cache.cache {
 		node := v.Value.(*cacheEntry).val
 		if !node.isDirty() {
